@@ -239,6 +239,27 @@ func main() {
 					y, _ = sn.Wire(y)
 					attack(fmt.Sprintf("needed-signer-dropped-and-resigned#%d", i), y, true)
 				}
+				// replace the needed signer by a repeat of another signer (a repeated entry contributes nothing)
+				j := (i + 1) % len(it.Signers)
+				if j == 0 && !strings.Contains(it.Tx.Initiator, "@") && len(it.Signers) > 2 {
+					j = 1 // keep the address initiator's own entry single
+				}
+				if j != i {
+					ks2 := append([]*sn.Key{}, it.Signers...)
+					ks2[i] = it.Signers[j]
+					z := sn.CloneTx(it.Tx)
+					if len(z.AuthRequire) == len(it.Signers) {
+						z.AuthRequire = append([]string{}, z.AuthRequire...)
+						z.AuthRequire[i] = z.AuthRequire[j]
+					}
+					if i == 0 && !strings.Contains(z.Initiator, "@") {
+						z.Initiator = ks2[0].Address
+					}
+					if err := sn.SignTx(z, ks2, it.XuperSign); err == nil {
+						z, _ = sn.Wire(z)
+						attack(fmt.Sprintf("needed-signer-replaced-by-repeat-of-another#%d", i), z, true)
+					}
+				}
 			}
 		}
 		// swap the signatures of two signers
@@ -360,6 +381,9 @@ func malleability(it corpus.Item, m mutate.Mutant) string {
 		if j := strings.Index(path, "]."); j >= 0 {
 			rest = path[j+2:]
 		}
+	}
+	if idx < 0 && strings.HasPrefix(m.Kind, "overwrite[") {
+		fmt.Sscanf(m.Kind, "overwrite[%d<-", &idx) // only entry idx changes
 	}
 	tx := it.Tx
 	accountInit := strings.Contains(tx.Initiator, "@")
